@@ -945,6 +945,19 @@ pub mod verif {
             }
         }
 
+        /// What `leave` does to the coordination state (the document leaves the sync set),
+        /// without the store-actor and gossip parts.
+        pub fn verif_state_leave(&mut self, namespace: &NamespaceId) -> bool {
+            self.state.remove(namespace)
+        }
+
+        /// What `start_sync` does to the coordination state (the document joins the sync set).
+        pub fn verif_state_join(&mut self, namespace: NamespaceId) {
+            if !self.state.is_syncing(&namespace) {
+                self.state.insert(namespace);
+            }
+        }
+
         /// The node id of this actor.
         pub fn verif_me(&self) -> PublicKey {
             self.endpoint.id()
